@@ -203,9 +203,10 @@ _WORLD_EXTRA_PROFILE = {      # further profiles of harness/world.c run under th
     'C07': [(('C07O', 1, 0, 8), ('C07O', 2, 0, 8)),
             (('C07D', 1, 1, 4), ('C07D', 2, 2, 5))],      # context calls (also a second m_ctx_register) armed inside callbacks of plain and DENY_CTX modules      # context registered with NAME_DUP / auto-free name and user data
     'C19': [(('C19T', 1, 0, 6), ('C19T', 2, 0, 7))],      # tick period changed while the loop runs: never more often than the period in force
+    'C04': [(('C04F', 2, 1, 5), ('C04F', 2, 2, 6)),
+            (('C09S', 1, 0, 5), ('C09S', 1, 0, 7))],      # subscriptions with DUP topics / AUTOFREE user data / replacement under the memory-safety oracle
     'C13': [(('C13B', 1, 0, 5), ('C13B', 1, 0, 7))],      # batching and priorities on a module that also has a token bucket (refill ticks are internal timer events)
-    'C04': [(('C04F', 2, 1, 5), ('C04F', 2, 2, 6))],      # messages and pills in flight, re-entrant stop/deregister from the handler, final flush
-    'C20': [(('C20T', 1, 1, 5), ('C20T', 2, 2, 6))],      # the context tick: set / cleared at top level and from callbacks, also while the loop stops
+    'C20': [(('C20T', 1, 1, 6), ('C20T', 2, 2, 6))],      # the context tick: set / cleared at top level and from callbacks, also while the loop stops
     'C09': [(('C09S', 1, 0, 6), ('C09S', 1, 0, 8)),
             (('C09T', 1, 0, 4), ('C09T', 1, 0, 6)),       # user timers next to the library's internal ones (bucket refill 1 ms = timer #1, batch timeout)       # subscriptions alone (DUP topics, auto-free user data, replacement)
             (('C09X', 1, 0, 3), ('C09X', 1, 0, 4))],      # sources and subscriptions together
@@ -276,5 +277,7 @@ def _c04task(scn, budget, dl):
 
 CHECKS['C04']['parts'].append(schedx_part('task', 'c04_task', ALL_LIBS, quick=[_c04task(s, 2, 100) for s in range(6)], thorough=[_c04task(s, 3, 600) for s in range(6)]))
 # the same scenarios under TSan, as part of C14 (task sources running concurrently with their context); pause/resume with a task in flight is excluded (it restarts the task: unspecified)
+CHECKS['C20']['parts'].append(schedx_part('task-fd', 'c04_task', ALL_LIBS, quick=[_c04task(6, 2, 100)], thorough=[_c04task(6, 3, 600)]))
+CHECKS['C20']['bounds']['quick'] += '; task completion descriptors: task delivered, user opens descriptors, loop stop and context release under every interleaving (budget 2)'
 CHECKS['C14']['parts'].append(schedx_part('task-tsan', 'c04_task', ALL_LIBS, variant='tsan', quick=[_c04task(s, 2, 100) for s in (0, 1, 2, 4, 5)], thorough=[_c04task(s, 3, 600) for s in (0, 1, 2, 4, 5)]))
 CHECKS['C04']['bounds']['quick'] += '; task in flight: 6 scenarios (deliver, stop, deregister, pause/resume, quit, stop+restart while the task body runs), every interleaving with the pool worker within 2 preemptions'
